@@ -20,6 +20,7 @@ TOKENS = [
     ("%E2%80%8B", "esc-zero-width"), ("%EF%BB%BF", "esc-zero-width"), ("%E2%81%A0", "esc-zero-width"), ("%E2%80%8D", "esc-zero-width"), ("%C2%AD", "esc-zero-width"),
     ("ß", "raw-nonascii"), ("%C3%9F", "esc-utf8"), ("ſ", "raw-nonascii"),
     ("%E2%84%85", "esc-nfkc-lookalike"), ("%E2%81%87", "esc-nfkc-lookalike"), ("%E2%A9%B4", "esc-nfkc-lookalike"),
+    ("%c3%bc", "esc-utf8-lower"), ("%bc", "non-utf8-lower-letters"), ("%ff", "non-utf8-lower-letters"),
     ("%5B", "esc-bracket"), ("%5D", "esc-bracket"), ("%5b", "esc-bracket"), ("[", "raw-bracket"), ("]", "raw-bracket"),
     ("amp;", "amp-entity-tail"), ("amp%3B", "amp-entity-tail"), ("%2541", "nested"), ("%252F", "nested"), ("%25%34%31", "nested"), ("%2525", "nested"),
 ]
